@@ -44,6 +44,9 @@ func c08Main(args []string) error {
 		if cr.chance(1, 2) {
 			o.imm = 1 << 16 // small initial map: growth in the failing commit needs a remap
 		}
+		if wl%3 == 0 {
+			o.imm = 8 << 20 // no remap at all: a reader held across the failure never has to be closed to let a commit through
+		}
 		// prefix: a few committed transactions
 		cfg := genCfg{ps: o.ps, txs: cr.intn(4), opsPerTx: 10, bigVals: cr.chance(1, 2), readers: false, reopen: false, malformed: false, moves: true}
 		if (wl+int(c.seed))%4 == 3 {
@@ -97,10 +100,15 @@ func c08Main(args []string) error {
 			}
 		}
 		for k := 0; k < n; k++ {
-			for _, withReader := range []bool{false, true} {
+			for variant := 0; variant < 3; variant++ {
+				withReader := variant > 0
 				var L []string
 				L = append(L, prefix...)
-				if withReader {
+				if variant == 2 {
+					// the reader sits exactly at the version the failing transaction starts from: the pages that transaction
+					// frees are pages of the reader's version (known finding D5 when the failing call is the final sync)
+					L = append(L, "beginr 1", "dump r1")
+				} else if withReader {
 					// the reader is older than the last successful commit, so pages of ITS version are pending when the failure happens
 					L = append(L, "beginr 1", "dump r1", "beginw", "x w createif - 6662",
 						fmt.Sprintf("x w put 6662 %x @%d:3", "f0000", 20+o.ps/3), "x w createif - 6f6c64", "x w put 6f6c64 6b 76", "dump w", "commit", "dump r1")
@@ -123,7 +131,7 @@ func c08Main(args []string) error {
 					L = append(L, "dump r1", "endr 1")
 				}
 				L = append(L, epilogue...)
-				runHistory(w, *dir, id, fmt.Sprintf("wl=%d k=%d of %d reader=%v", wl, k, n, withReader), L, "commit+io")
+				runHistory(w, *dir, id, fmt.Sprintf("wl=%d k=%d of %d reader=%v variant=%d", wl, k, n, withReader, variant), L, "commit+io")
 				id++
 			}
 		}
